@@ -56,6 +56,9 @@ func genC20(t *rapid.T, ev *evid.Rec) caseC20 {
 			}
 		}
 		c.Now = rapid.IntRange(0, 3).Draw(t, "now") == 0
+		if c.Now {
+			c.Since = nil // whether --now is applied before or after the filter is not C20's matter
+		}
 		if !c.Now && rapid.IntRange(0, 3).Draw(t, "withType") == 0 {
 			c.Type = rapid.SampledFrom([]string{"range", "open-range", "duration"}).Draw(t, "entryType")
 		}
@@ -147,6 +150,8 @@ func wantTags(o *model.JObject, lines []model.Text) error {
 		want[i] = asJSONText(want[i])
 	}
 	sort.Strings(want)
+	got = append([]string(nil), got...)
+	sort.Strings(got) // the order of the tags array is not constrained by the property
 	if strings.Join(got, "\x00") != strings.Join(want, "\x00") {
 		return fmt.Errorf("tags = %q, want %q", got, want)
 	}
@@ -212,11 +217,18 @@ func checkRecordJSON(o *model.JObject, r model.Record) error {
 			if err := firstErr(wantStr(eo, "start", model.CanonTime(e.Start.Off, e.Start.Is12h)), wantInt(eo, "start_mins", e.Start.Off)); err != nil {
 				return fmt.Errorf("entry %d: %v", i, err)
 			}
-		} else if _, has := eo.Get("start"); has {
+		} else if v, has := eo.Get("start"); has && v != nil {
 			return fmt.Errorf("entry %d: duration with start", i)
 		}
 		if e.Kind == model.KRange {
-			if err := firstErr(wantStr(eo, "end", model.CanonTime(e.End.Off, e.End.Is12h)), wantInt(eo, "end_mins", e.End.Off)); err != nil {
+			endLit := wantStr(eo, "end", model.CanonTime(e.End.Off, e.End.Is12h))
+			if e.End.Lit == "closed-by-now" { // the clock notation of a range closed by --now is not specified
+				endLit = firstErr(wantStr(eo, "end", model.CanonTime(e.End.Off, false)))
+				if endLit != nil {
+					endLit = wantStr(eo, "end", model.CanonTime(e.End.Off, true))
+				}
+			}
+			if err := firstErr(endLit, wantInt(eo, "end_mins", e.End.Off)); err != nil {
 				return fmt.Errorf("entry %d: %v", i, err)
 			}
 			sm, _ := jInt(eo, "start_mins")
@@ -224,7 +236,7 @@ func checkRecordJSON(o *model.JObject, r model.Record) error {
 			if tm != em-sm {
 				return fmt.Errorf("entry %d: total_mins %d != end_mins - start_mins", i, tm)
 			}
-		} else if _, has := eo.Get("end"); has {
+		} else if v, has := eo.Get("end"); has && v != nil {
 			return fmt.Errorf("entry %d: %s with end", i, e.Kind)
 		}
 	}
@@ -273,7 +285,7 @@ func checkC20(c caseC20) (Outcome, error) {
 			if oi := r.OpenIndex(); oi >= 0 {
 				e := nr.Entries[oi]
 				e.Kind = model.KRange
-				e.End = model.Time{Off: (c.Env.NowDay-r.Date.Days())*1440 + c.Env.NowMin()}
+				e.End = model.Time{Off: (c.Env.NowDay-r.Date.Days())*1440 + c.Env.NowMin(), Lit: "closed-by-now"}
 				e.DashL, e.DashR = " ", " "
 				nr.Entries[oi] = e
 				out.Label("closed-by-now")
